@@ -15,13 +15,14 @@ validates the translators themselves (run by hand; results quoted in DESIGN.md 1
 import os, re, subprocess, sys, tempfile, shutil
 HERE = os.path.dirname(os.path.abspath(__file__))
 sys.path.insert(0, HERE)
-import extract_cmp, extract_bmca, extract_announce, extract_msgs, extract_receipt
+import extract_cmp, extract_bmca, extract_announce, extract_msgs, extract_receipt, extract_portmove
 REPO = os.environ.get("VERIF_REPO", "/repo")
 LEAN = os.path.join(HERE, "..", "lean")
 CMP = "statime/src/bmc/dataset_comparison.rs"
 BMCA = "statime/src/bmc/bmca.rs"
 MSG = "statime/src/datastructures/messages/mod.rs"
 PORT = "statime/src/port/mod.rs"
+PBMCA = "statime/src/port/bmca.rs"
 
 # (name, file, old, new, expect) — expect: "break" or "hold"
 MUTANTS = [
@@ -88,6 +89,16 @@ MUTANTS = [
     ("receipt timeout: slave-only port forced to Passive", PORT, "            if !matches!(self.port_state, PortState::Listening) {\n                self.set_forced_port_state(PortState::Listening);", "            if !matches!(self.port_state, PortState::Passive) {\n                self.set_forced_port_state(PortState::Passive);", "break"),
     ("receipt timeout: slave-only bound to a name first (same meaning)", PORT, "        if self\n            .instance_state\n            .with_ref(|state| state.default_ds.slave_only)\n        {\n            // We didn't hear messages from the master anymore",
      "        let slave_only = self\n            .instance_state\n            .with_ref(|state| state.default_ds.slave_only);\n        if slave_only {\n            // We didn't hear messages from the master anymore", "hold"),
+    ("port move: Faulty port promoted by M1/M2/M3 (seed C14-8)", PBMCA, "                        PortState::Listening | PortState::Slave(_) | PortState::Passive => {\n                            self.set_forced_port_state(PortState::Master);",
+     "                        PortState::Listening | PortState::Slave(_) | PortState::Passive | PortState::Faulty => {\n                            self.set_forced_port_state(PortState::Master);", "break"),
+    ("port move: Faulty port made Slave by S1", PBMCA, "                    PortState::Faulty => false,\n                    PortState::Listening | PortState::Master | PortState::Passive => true,", "                    PortState::Faulty | PortState::Listening | PortState::Master | PortState::Passive => true,", "break"),
+    ("port move: S1 on the same master re-creates the Slave state", PBMCA, "PortState::Slave(old_state) => old_state.remote_master() != remote_master,", "PortState::Slave(_) => true,", "break"),
+    ("port move: new Slave does not start its delay timer", PBMCA, "self.lifecycle.pending_action = actions![reset_announce, reset_delay];", "self.lifecycle.pending_action = actions![reset_announce];", "break"),
+    ("port move: disabled sibling port leaves Faulty", PBMCA, "if !matches!(self.port_state, PortState::Passive | PortState::Faulty) {", "if !matches!(self.port_state, PortState::Passive) {", "break"),
+    ("port move: P1 moves a Passive port again (same meaning? no: it demobilises)", PBMCA, "                PortState::Listening | PortState::Slave(_) | PortState::Master => {\n                    self.set_forced_port_state(PortState::Passive)\n                }\n                PortState::Passive | PortState::Faulty => {}",
+     "                PortState::Listening | PortState::Slave(_) | PortState::Master | PortState::Passive => {\n                    self.set_forced_port_state(PortState::Passive)\n                }\n                PortState::Faulty => {}", "break"),
+    ("port move: slave-only Master keeps running", PBMCA, "                        PortState::Listening | PortState::Faulty => { /* do nothing */ }\n                        PortState::Slave(_) | PortState::Passive | PortState::Master => {",
+     "                        PortState::Listening | PortState::Faulty | PortState::Master => { /* do nothing */ }\n                        PortState::Slave(_) | PortState::Passive => {", "break"),
     ("announce: leap flags crossed", MSG, "leap59: time_properties_ds.leap_indicator == LeapIndicator::Leap59,\n            leap61: time_properties_ds.leap_indicator == LeapIndicator::Leap61,",
      "leap59: time_properties_ds.leap_indicator == LeapIndicator::Leap61,\n            leap61: time_properties_ds.leap_indicator == LeapIndicator::Leap59,", "break"),
     ("announce: traceable flags crossed", MSG, "time_tracable: time_properties_ds.time_traceable,\n            frequency_tracable: time_properties_ds.frequency_traceable,",
@@ -116,7 +127,7 @@ example : Generated.cmpDispatch.isSome ∧ Generated.figure35Arms.isSome ∧ Gen
     Generated.figure34Arms.isSome ∧ Generated.asOrderingTable.isSome ∧ Generated.ofAnnounceTable.isSome ∧
     Generated.ofOwnTable.isSome ∧ Generated.accuracyComparedByOctet = some true ∧ Generated.decisionTable.isSome ∧ Generated.bestCompareTable.isSome ∧ Generated.findBestIsMaxBy = some true ∧
     Generated.announceFlagTable.isSome ∧ Generated.announceBodyTable.isSome ∧ Generated.timePropertiesTable.isSome ∧ Generated.syncCtor.isSome ∧ Generated.followUpCtor.isSome ∧
-    Generated.delayReqCtor.isSome ∧ Generated.delayRespCtor.isSome ∧ Generated.pdelayReqCtor.isSome ∧ Generated.pdelayRespCtor.isSome ∧ Generated.pdelayRespFuCtor.isSome ∧ Generated.receiptTimerTable.isSome ∧
+    Generated.delayReqCtor.isSome ∧ Generated.delayRespCtor.isSome ∧ Generated.pdelayReqCtor.isSome ∧ Generated.pdelayRespCtor.isSome ∧ Generated.pdelayRespFuCtor.isSome ∧ Generated.receiptTimerTable.isSome ∧ Generated.portMoveTable.isSome ∧
     Generated.announceBaseHeaderAsModelled = some true := by decide
 """
 
@@ -152,9 +163,9 @@ def main():
                 return t
             out, deg = {}, []
             w = lambda n, t: out.__setitem__(n, t)
-            extract_cmp.run(read, w, deg); extract_bmca.run(read, w, deg); extract_announce.run(read, w, deg); extract_msgs.run(read, w, deg); extract_receipt.run(read, w, deg)
-            lean = ("import StatimeModel.Lemmas.CmpGen\nimport StatimeModel.Lemmas.DecisionGen\nimport StatimeModel.Lemmas.AnnounceGen\nimport StatimeModel.Lemmas.MsgGen\nimport StatimeModel.Lemmas.ReceiptGen\n" +
-                    body(out["DatasetComparison.lean"]) + body(out["StateDecision.lean"]) + body(out["AnnounceCtor.lean"]) + body(out["MsgCtors.lean"]) + body(out["ReceiptTimer.lean"]) +
+            extract_cmp.run(read, w, deg); extract_bmca.run(read, w, deg); extract_announce.run(read, w, deg); extract_msgs.run(read, w, deg); extract_receipt.run(read, w, deg); extract_portmove.run(read, w, deg)
+            lean = ("import StatimeModel.Lemmas.CmpGen\nimport StatimeModel.Lemmas.DecisionGen\nimport StatimeModel.Lemmas.AnnounceGen\nimport StatimeModel.Lemmas.MsgGen\nimport StatimeModel.Lemmas.ReceiptGen\nimport StatimeModel.Lemmas.PortMoveGen\n" +
+                    body(out["DatasetComparison.lean"]) + body(out["StateDecision.lean"]) + body(out["AnnounceCtor.lean"]) + body(out["MsgCtors.lean"]) + body(out["ReceiptTimer.lean"]) + body(out["PortMove.lean"]) +
                     "\nnamespace Statime.C05\nopen Statime\n" + sec + "\nend Statime.C05\n" +
                     "\nnamespace Statime.C11\nopen Statime\n" + sec11 + "\nend Statime.C11\n" +
                     "\nnamespace Statime.C10\nopen Statime\n" + sec10 + "\nend Statime.C10\n" +
